@@ -58,6 +58,10 @@ pub fn op_strategy() -> BoxedStrategy<Op> {
 /// probe positions: every small k plus the ones around the current length (full quadratic probing of a
 /// 65 000-digit builder would take minutes)
 fn probes(len: usize) -> Vec<usize> {
+    if len > 5_000 {
+        // very long builders: a handful of probes (each peek formats the whole slice)
+        return vec![0, 1, 2, 3, len - 1, len, len + 1, usize::MAX];
+    }
     let mut v: Vec<usize> = (0..=(len + 2).min(24)).collect();
     if len > 22 {
         for k in [len - 2, len - 1, len, len + 1, len + 2, len / 2, 31, 32, 33, 255, 256, 65_535, 65_536] {
@@ -67,6 +71,9 @@ fn probes(len: usize) -> Vec<usize> {
         }
     }
     v.sort();
+    // boundary arguments
+    v.push(usize::MAX - 1);
+    v.push(usize::MAX);
     v
 }
 fn render_summary(s: &str) -> String {
@@ -140,7 +147,7 @@ impl Property for C12 {
         "C12"
     }
     fn rule(&self) -> String {
-        "Generated: operation traces of length 1..40 over put/put_digit_at/shift/fput/push/freeze/reset with digit arguments of 1..40 digits (zero-biased), positions up to 39 and runs of up to 40 leading zeros; one trace in 200 is a short trace with extreme arguments (250..700 leading zeros, positions / shifts around 2^16 and up to 70 000); after every step all public queries (to_string, len, is_empty, is_null, peek(k), is_free(k), is_position_free(k), is_range_free(a,b) a<b, deref, is_ordinal, flags, marker) for k <= len+2 are compared with an independent reference model and the statement's direct invariants are asserted. Enumerated: every trace of length <= 3 over a 19-operation alphabet (quick) / length <= 4 (thorough). Non-trivial = distinct traces containing a refused operation on a non-empty builder, a sub-group shift (shift on a buffer longer than p), or a shift with implicit one.".into()
+        "Generated: operation traces of length 1..40 over put/put_digit_at/shift/fput/push/freeze/reset with digit arguments of 1..40 digits (zero-biased), positions up to 39 and runs of up to 40 leading zeros; one trace in 200 is a short trace with extreme arguments (250..700 leading zeros, positions / shifts around 2^16 and up to 70 000), one in 4000 with positions / shifts around 2^20; after every step all public queries (to_string, len, is_empty, is_null, peek(k), is_free(k), is_position_free(k), is_range_free(a,b) a<b, deref, is_ordinal, flags, marker) for k <= len+2 are compared with an independent reference model and the statement's direct invariants are asserted. Enumerated: every trace of length <= 3 over a 19-operation alphabet (quick) / length <= 4 (thorough). Non-trivial = distinct traces containing a refused operation on a non-empty builder, a sub-group shift (shift on a buffer longer than p), or a shift with implicit one.".into()
     }
     fn assumptions(&self) -> Vec<String> {
         vec![
@@ -163,9 +170,16 @@ impl Property for C12 {
             1 => (1_000usize..70_000).prop_map(Op::Shift),
             6 => op_strategy(),
         ];
+        // 1 trace in 4000: positions / shifts around 2^20 (builders of a million digits; ~0.5 s per trace)
+        let giant_op = prop_oneof![
+            2 => ((1usize << 20) - 3..(1usize << 20) + 4).prop_map(Op::Shift),
+            2 => ((1usize << 20) - 3..(1usize << 20) + 4).prop_map(|p| Op::PutDigitAt('1', p)),
+            3 => op_strategy(),
+        ];
         prop_oneof![
-            199 => proptest::collection::vec(op_strategy(), 1..40),
-            1 => proptest::collection::vec(huge_op, 1..7),
+            3979 => proptest::collection::vec(op_strategy(), 1..40),
+            20 => proptest::collection::vec(huge_op, 1..7),
+            1 => proptest::collection::vec(giant_op, 1..5),
         ]
         .boxed()
     }
